@@ -241,6 +241,22 @@ func outClass(md protoreflect.MessageDescriptor) string {
 // handler: if that works the finding key names the handler behaviour.
 func execC04(e *env, c *Case) (o outcome) {
 	o = execC04Once(e, c, c.Handler)
+	if len(o.viols) > 0 && len(c.Req.Header["Twirp-Version"]) > 0 {
+		c2 := *c
+		c2.Req.Header = map[string][]string{}
+		for k, v := range c.Req.Header {
+			if k != "Twirp-Version" {
+				c2.Req.Header[k] = v
+			}
+		}
+		if o2 := execC04Once(e, &c2, c.Handler); len(o2.viols) == 0 && o2.inconcl == "" {
+			for i := range o.viols {
+				o.viols[i].key = keyFamily(o.viols[i].key) + ":twirp-version-header"
+				o.viols[i].what += " - the same request without the Twirp-Version header is answered correctly"
+			}
+			return o
+		}
+	}
 	if c.Rule.Via == "config" {
 		// failures of the body / response_body selection on a rule that came
 		// through ServiceConfigOption name that in the key
@@ -597,6 +613,9 @@ func replyRules() (dynamic, real []RuleSpec) {
 		pbRule("Messaging", "GetMessageOne", "GetMessageRequestOne", rsp+"Message", "GET", "/v1/messages/{name=name/*}", ""),
 		pbRule("Files", "UploadDownload", "UploadFileRequest", hb, "POST", "/files/{filename}", "file"),
 		pbRule("WellKnown", "Check", "Scalars", "google.protobuf.Empty", "GET", "/v1/wellknown", ""),
+		// implicit routes: any verb, /package.Service/Method, body "*"
+		pbRule("Messaging", "GetMessageOne", "GetMessageRequestOne", rsp+"Message", "*", "/larking.testpb.Messaging/GetMessageOne", "*"),
+		pbRule("Messaging", "GetBook", "GetBookRequest", rsp+"Book", "*", "/larking.testpb.Messaging/GetBook", "*"),
 	}
 	return
 }
@@ -801,6 +820,11 @@ func (g *gen) c04Case(p *plan, kind, reqCT string, accept, acceptEnc []string) (
 	if rc == "" {
 		rc = "absent"
 	}
+	if g.n%4 == 1 {
+		// sent by Twirp clients and by proxies that add it: must not change
+		// the negotiation of a successful reply
+		q.Header["Twirp-Version"] = []string{[]string{"v5.12.0", "v7.1.0", "7", "x"}[(g.n/4)%4]}
+	}
 	handler := c04HandlerModes[g.n%len(c04HandlerModes)]
 	cls := "req=" + strings.TrimPrefix(rc, "application/") + "|accept=" + acceptClass(kind, accept)
 	if handler != "" {
@@ -813,7 +837,7 @@ func (g *gen) c04Case(p *plan, kind, reqCT string, accept, acceptEnc []string) (
 		Reply: wireR, ReplyJSON: jsonOf(reply)}, nil
 }
 
-const ruleC04 = "unary rules returning vf.Req, larking.testpb.ComplexRequest (maps, Struct, Any, every scalar), vf.Rsp, google.api.HttpBody and real larking.testpb methods (GetShelf, GetBook, UpdateBook, GetMessageOne, Files.UploadDownload, WellKnown.Check); with and without response_body (top-level message fields incl. an HttpBody field; body '', '*' and <field>). The recording handler returns a planted reply (generator of C03: boundary / random values, empty, ~160 KiB, HttpBody with content types incl. parameters and arbitrary bytes up to 64 KiB). Requests: Content-Type absent / application/json / application/protobuf / application/octet-stream (optionally gzip bodies), Accept headers = a fixed table (single types, wildcards, q=0 exclusions, all-excluded, junk tokens, google.api.HttpBody, duplicated headers) x all request types, plus random headers (1-4 ranges, exact / type/* / */*, q in {absent,0,0.000,0.001,0.1,0.5,0.9,1,1.000}, OWS variants, junk elements, split over two header lines), Accept-Encoding values. Two further dimensions: (1) the handler touches the response metadata before returning (every 2nd case: grpc.SetHeader, grpc.SendHeader = headers sent early, SendHeader(nil), SetHeader+SendHeader, SetTrailer) - a failure that disappears with a plain handler is keyed handler=<mode>; (2) every rule also lives on a mux with two extra media types registered through larking.CodecOption (application/x-vf-json, application/x-vf-proto; magic-prefixed so the decoder can tell the named codec produced the body): there the registered universe has five types, request bodies / Content-Types and Accept headers name the extra types (fixed table of 10 headers x all six request types, the general fixed table with rotating request types, a third of the random headers). (3) a third mux REPLACES application/json and application/protobuf by the marked codecs, and a second plain mux is built after the option muxes: the plain muxes (built before and after) must answer in the built-in codecs, never carry a mark, and fall back for headers naming the extra types; (3b) the same tables on a mux with StatsOption + pass-through interceptors and on a mux whose FilesOption registry is a re-ordered second build of the descriptors while the handlers build replies on the first; (3c) replies that ARE well-known types with a JSON form of their own (Timestamp, Duration, FieldMask, the nine wrappers, Struct, Value, ListValue, Empty), default-valued and not, as the method's reply and as the response_body-selected field of vf.Req / ComplexRequest; (4a) rules with additional_bindings whose bindings differ from the primary rule in response_body and body (both the additional binding and the primary are exercised); (4) rules delivered through ServiceConfigOption (selector = method): on routes of their own and re-declaring the annotated route of the method with another body / response_body (the service configuration wins). Oracles: independent decode by the response Content-Type (protojson / proto.Unmarshal / the harness decoders of the extra codecs) and proto.Equal with the reply or its response_body field; HttpBody: body == data and Content-Type == content_type; Content-Encoding gzip must gunzip to the payload, absent / identity means the body is the payload; RFC 7231 5.3.2 evaluator (most specific range wins, q=0 excludes), applied only when the header parses under the evaluated grammar: if a registered type is admitted the response type must be admitted, if none is the response type must be the request's own (JSON when absent). distinct = (rule, response codec, request type, Accept class, admission verdict, response Content-Encoding). Stateful part: sequences of 16-40 requests on one mux against an asset-server handler that owns long-lived buffers (1 B - 40 KB) and long-lived reply messages and serves them repeatedly without copying (fresh HttpBody / vf.Rsp per call whose data / bytes field aliases the buffer; the same long-lived vf.Rsp whose response_body-selected HttpBody or vf.Req sub-message holds it), interleaved with other transcoded requests with request bodies and replies of 0 B - 60 KB in all codecs; every reply is checked against an expectation built from an independent pristine copy, after every step every handler-owned buffer must still equal its pristine copy (canary) and at the end every long-lived reply message must equal a freshly built one; distinct there = (asset shape, codec) of assets served again intact after other traffic"
+const ruleC04 = "unary rules returning vf.Req, larking.testpb.ComplexRequest (maps, Struct, Any, every scalar), vf.Rsp, google.api.HttpBody and real larking.testpb methods (GetShelf, GetBook, UpdateBook, GetMessageOne, Files.UploadDownload, WellKnown.Check); with and without response_body (top-level message fields incl. an HttpBody field; body '', '*' and <field>). The recording handler returns a planted reply (generator of C03: boundary / random values, empty, ~160 KiB, HttpBody with content types incl. parameters and arbitrary bytes up to 64 KiB). Requests: Content-Type absent / application/json / application/protobuf / application/octet-stream (optionally gzip bodies), Accept headers = a fixed table (single types, wildcards, q=0 exclusions, all-excluded, junk tokens, google.api.HttpBody, duplicated headers) x all request types, plus random headers (1-4 ranges, exact / type/* / */*, q in {absent,0,0.000,0.001,0.1,0.5,0.9,1,1.000}, OWS variants, junk elements, split over two header lines), Accept-Encoding values. Two further dimensions: (1) the handler touches the response metadata before returning (every 2nd case: grpc.SetHeader, grpc.SendHeader = headers sent early, SendHeader(nil), SetHeader+SendHeader, SetTrailer) - a failure that disappears with a plain handler is keyed handler=<mode>; (2) every rule also lives on a mux with two extra media types registered through larking.CodecOption (application/x-vf-json, application/x-vf-proto; magic-prefixed so the decoder can tell the named codec produced the body): there the registered universe has five types, request bodies / Content-Types and Accept headers name the extra types (fixed table of 10 headers x all six request types, the general fixed table with rotating request types, a third of the random headers). (3) a third mux REPLACES application/json and application/protobuf by the marked codecs, and a second plain mux is built after the option muxes: the plain muxes (built before and after) must answer in the built-in codecs, never carry a mark, and fall back for headers naming the extra types; (3b) the same tables on a mux with StatsOption + pass-through interceptors and on a mux whose FilesOption registry is a re-ordered second build of the descriptors while the handlers build replies on the first; (3d) a quarter of the requests carry a Twirp-Version header (a failure that disappears without it is keyed twirp-version-header), on annotated and implicit routes; (3c) replies that ARE well-known types with a JSON form of their own (Timestamp, Duration, FieldMask, the nine wrappers, Struct, Value, ListValue, Empty), default-valued and not, as the method's reply and as the response_body-selected field of vf.Req / ComplexRequest; (4a) rules with additional_bindings whose bindings differ from the primary rule in response_body and body (both the additional binding and the primary are exercised); (4) rules delivered through ServiceConfigOption (selector = method): on routes of their own and re-declaring the annotated route of the method with another body / response_body (the service configuration wins). Oracles: independent decode by the response Content-Type (protojson / proto.Unmarshal / the harness decoders of the extra codecs) and proto.Equal with the reply or its response_body field; HttpBody: body == data and Content-Type == content_type; Content-Encoding gzip must gunzip to the payload, absent / identity means the body is the payload; RFC 7231 5.3.2 evaluator (most specific range wins, q=0 excludes), applied only when the header parses under the evaluated grammar: if a registered type is admitted the response type must be admitted, if none is the response type must be the request's own (JSON when absent). distinct = (rule, response codec, request type, Accept class, admission verdict, response Content-Encoding). Stateful part: sequences of 16-40 requests on one mux against an asset-server handler that owns long-lived buffers (1 B - 40 KB) and long-lived reply messages and serves them repeatedly without copying (fresh HttpBody / vf.Rsp per call whose data / bytes field aliases the buffer; the same long-lived vf.Rsp whose response_body-selected HttpBody or vf.Req sub-message holds it), interleaved with other transcoded requests with request bodies and replies of 0 B - 60 KB in all codecs; every reply is checked against an expectation built from an independent pristine copy, after every step every handler-owned buffer must still equal its pristine copy (canary) and at the end every long-lived reply message must equal a freshly built one; distinct there = (asset shape, codec) of assets served again intact after other traffic"
 
 // RunC04 is the unary-response-fidelity check.
 func RunC04(r *mon.Run) {
@@ -946,4 +970,6 @@ func RunC04(r *mon.Run) {
 		}
 		do(x, types[g.rng.Intn(len(types))], acc, acceptEncodingPool[g.rng.Intn(len(acceptEncodingPool))])
 	}
+	// last of all: another mux with options for built-in keys appears in the process
+	runForeignC04(r, g)
 }
